@@ -94,6 +94,21 @@ def cmd_sensor_rearm(ipmi, args):
     ipmi.rearm_sensor_events(number)
 
 
+def sensor_value(s, raw):
+    """Converted reading or threshold of a full sensor record.
+
+    'na' if there is no reading or if the raw value is outside the domain of
+    the sensor's linearization function (1/x, ln, log, sqrt ... of e.g. 0).
+    """
+    try:
+        value = s.convert_sensor_raw_to_value(raw)
+    except (ValueError, ArithmeticError):
+        value = None
+    if value is None:
+        value = "na"
+    return value
+
+
 def sdr_show(ipmi, s):
 
     print("SDR record ID:    0x%04x" % s.id)
@@ -105,15 +120,13 @@ def sdr_show(ipmi, s):
         print("Entity:           %s.%s" % (s.entity_id, s.entity_instance))
     if s.type is pyipmi.sdr.SDR_TYPE_FULL_SENSOR_RECORD:
         (raw, states) = ipmi.get_sensor_reading(s.number, s.owner_lun)
-        value = s.convert_sensor_raw_to_value(raw)
-        if value is None:
-            value = "na"
-        t_unr = s.convert_sensor_raw_to_value(s.threshold['unr'])
-        t_ucr = s.convert_sensor_raw_to_value(s.threshold['ucr'])
-        t_unc = s.convert_sensor_raw_to_value(s.threshold['unc'])
-        t_lnc = s.convert_sensor_raw_to_value(s.threshold['lnc'])
-        t_lcr = s.convert_sensor_raw_to_value(s.threshold['lcr'])
-        t_lnr = s.convert_sensor_raw_to_value(s.threshold['lnr'])
+        value = sensor_value(s, raw)
+        t_unr = sensor_value(s, s.threshold['unr'])
+        t_ucr = sensor_value(s, s.threshold['ucr'])
+        t_unc = sensor_value(s, s.threshold['unc'])
+        t_lnc = sensor_value(s, s.threshold['lnc'])
+        t_lcr = sensor_value(s, s.threshold['lcr'])
+        t_lnr = sensor_value(s, s.threshold['lnr'])
         print("Reading value:    %s" % value)
         print("Reading state:    0x%x" % states)
         print("UNR:              %s" % t_unr)
@@ -200,7 +213,7 @@ def cmd_sdr_list(ipmi, args):
                 (value, states) = ipmi.get_sensor_reading(s.number)
                 number = s.number
                 if value is not None:
-                    value = s.convert_sensor_raw_to_value(value)
+                    value = sensor_value(s, value)
 
             elif s.type is pyipmi.sdr.SDR_TYPE_COMPACT_SENSOR_RECORD:
                 (value, states) = ipmi.get_sensor_reading(s.number)
